@@ -1102,7 +1102,9 @@ func c18RunCase(out *vh.Out, op string) {
 			if n.Kind == "R" {
 				e, ok = n.Ench, true
 			}
-			if ok && e != [3]int{0, 0, 0} {
+			// an enhanced code without a class (0.x.y, incl. the unset 0.0.0) is no status code: the
+			// generic one of the right class stands for it
+			if ok && e[0] != 0 {
 				wantSt = fmt.Sprintf("%d.%d.%d", e[0], e[1], e[2])
 			}
 			return wantSt
@@ -1188,6 +1190,43 @@ func c18RunCase(out *vh.Out, op string) {
 			} else {
 				viol("diagnostic-missing", fmt.Sprintf("recipient %q", c.name(r)))
 			}
+		}
+		// the local part is opaque: every address the report shows in Final-Recipient is one of the
+		// strings the case knows, local part byte for byte (the domain may be in the A-/U-label form
+		// the report type requires) - never a normalised, case-folded or unquoted variant
+		for _, g := range p.Rcpts {
+			if len(g["Final-Recipient"]) == 0 {
+				continue
+			}
+			_, a := vdsn.SplitTyped(g["Final-Recipient"][0])
+			known := false
+			for _, nm := range c.names {
+				if nm != "" && vdsn.SameMailbox(a, nm) {
+					known = true
+					break
+				}
+			}
+			if !known {
+				viol("rewritten-address-disclosed", fmt.Sprintf("Final-Recipient %q is none of the addresses of this message (local part altered?), an address the sender never used", a))
+				break
+			}
+		}
+		// the sender is shown (X-Maddy-Sender) as the mailbox the report goes to
+		if p.Mta != nil && c.from != 0 {
+			if v := p.Mta["X-Maddy-Sender"]; len(v) != 1 {
+				viol("sender-address-altered", fmt.Sprintf("%d X-Maddy-Sender fields", len(v)))
+			} else if _, a := vdsn.SplitTyped(v[0]); !vdsn.SameMailbox(a, c.name(c.from)) {
+				viol("sender-address-altered", fmt.Sprintf("sender %q shown as %q", c.name(c.from), a))
+			}
+		}
+		for _, r := range failed {
+			if vdsn.NonNFCLocal(c.name(c.root[r])) {
+				out.Stat("q.report.failed-root-local-part-not-nfc")
+				break
+			}
+		}
+		if vdsn.NonNFCLocal(c.name(c.from)) {
+			out.Stat("q.report.sender-local-part-not-nfc")
 		}
 		// the explanation for the human reader names every failed recipient, too - once per
 		// recipient, under the address the sender used
